@@ -6,6 +6,7 @@
 import FP.Model.Arith
 import FP.Lemmas.Int32
 import FP.Lemmas.Arith
+import FP.Lemmas.Dec
 namespace FP.Props.C08
 open FP FP.Go FP.Model FP.Lemmas FP.Gen.IntArith
 
@@ -141,23 +142,6 @@ theorem abs_int (i : Int) :
   · by_cases hn : i < 0 <;> simp [mathFn, h, hn] <;> omega
 
 /-! ### Decimals: `+ - *` are exact.  `num d s` is the decimal's value scaled by `10^s`. -/
-
-def num (d : Dec) (s : Int) : Int := d.coeff * Dec.pow10 (s + d.exp)
-
-theorem pow10_add (x y : Int) (hx : 0 ≤ x) (hy : 0 ≤ y) : Dec.pow10 (x + y) = Dec.pow10 x * Dec.pow10 y := by
-  unfold Dec.pow10
-  rw [Int.toNat_add hx hy, Int.pow_add]
-
-theorem rescale_down_num (d : Dec) (e s : Int) (he : e ≤ d.exp) (hs : 0 ≤ s + e) :
-    num (d.rescale e) s = num d s ∧ (d.rescale e).exp = e := by
-  unfold Dec.rescale num
-  by_cases h : d.exp = e
-  · subst h; simp
-  · have h2 : ¬ e > d.exp := by omega
-    simp only [h, h2, if_false]
-    refine ⟨?_, trivial⟩
-    have : s + d.exp = (d.exp - e) + (s + e) := by omega
-    rw [this, pow10_add _ _ (by omega) hs, Int.mul_assoc]
 
 theorem dec_add_exact (a b : Dec) (s : Int) (ha : 0 ≤ s + a.exp) (hb : 0 ≤ s + b.exp) :
     num (Dec.add a b) s = num a s + num b s := by
